@@ -230,7 +230,13 @@ pub fn read_v6_bundle<R: Read>(
     consensus_branch_id: BranchId,
     pool: ValuePool,
 ) -> io::Result<Option<orchard::Bundle<Authorized, ZatBalance>>> {
-    read_bundle(reader, bundle_version_for_branch(consensus_branch_id, pool))
+    let bundle = read_bundle(reader, bundle_version_for_branch(consensus_branch_id, pool))?;
+    // The same restriction that `write_v6_bundle` enforces: under a pre-NU6.3 branch ID the
+    // derived version is not a v6 one, and a bundle accepted here could never be written back.
+    if let Some(bundle) = &bundle {
+        check_v6_bundle_version(bundle.bundle_version())?;
+    }
+    Ok(bundle)
 }
 
 pub fn read_value_commitment<R: Read>(mut reader: R) -> io::Result<ValueCommitment> {
